@@ -125,7 +125,7 @@ def make_world(seed):
     truth_shared = []
     for ci in range(2):
         chrom = "chr%d" % (ci + 1)
-        w.add_chrom(chrom, 160000)
+        w.add_chrom(chrom, 440000)
         pos = 2000
         k = 0
         for order in ("A-first", "B-first"):
@@ -206,7 +206,7 @@ def make_world(seed):
             pos = end + rng.randint(2500, 3500)
     # twin loci: identical exon coordinates and strand on chr1 and chr2, different splice-site classes
     # (an answer memorised for one chromosome must not be reused for the other)
-    pos = 125000
+    pos = 200000
     for k, (sc1, sc2) in enumerate((("canonical", "none"), ("none", "canonical"), ("canonical", "opposite"))):
         strand = "+-"[k % 2]
         ex = []
